@@ -41,7 +41,7 @@ TRIAGE = [
     ("syncBegin.go", 106, "", "O", "log-only branch"),
     ("pipe/pipe.go", 45, "", "E", "min(n, maxlen) at equality"),
     ("pipe/pipe.go", 57, "", "E", "min(n, maxlen) at equality"),
-    ("pipe/pipe.go", 107, "", "G", "Read on an empty pipe returns (0, nil) at once and never reports the writer's close: re-run by hand, the free-running readers spin until their watchdog (27 inconclusive cases, no verdict). A reader that polls instead of waiting is not caught"),
+    ("pipe/pipe.go", 107, "", "S", "Read on an empty pipe returns (0, nil) at once and never reports the writer's close: the free-running readers spun until their watchdog (inconclusive). C09 now decides on state - writer gone, every written byte received, reads still returning without error 20 s later: `no-error-after-writer-close` (the run as a whole still needs the driver's budget because the scripted stage's helpers spin as well)"),
     ("redis/encoder.go", 146, "", "G", "a failing writer's error after the final CRLF is swallowed; writers that fail are not generated (the statement is about values and bytes)"),
     ("cupcake/rdb/decoder.go", 482, "", "E", "ParseFloat bitSize 63 behaves as 64"),
     ("redis_command.go", 91, "", "E", "lastkey 0 entries have no keys and return earlier"),
